@@ -5,6 +5,7 @@
 #include "searchlib.h"
 #include "ucirig.h"
 #include "ucisession.h"
+#include "../gen/matepool.h"
 
 #include <malloc.h>
 
@@ -601,6 +602,28 @@ bool prop_C08(Tape& t, Report& rep)
     sl::Session S;
     std::string history;
     const int MAXD = g_tier ? 5 : 4;
+    if (t.chance(1, 5))
+    {
+        // mates in one by a SPECIAL move (en passant incl. discovered, promotions, castling, discovered / double check):
+        // the moves whose effect on the board is not "one piece goes from a to b"
+        const mp::Pool& P = mp::pool(uint64_t(opt_int("zseed", 1)), opt_int("matepool_tries", 150000), size_t(opt_int("matepool_cap", 16)));
+        static bool counted = false;
+        if (!counted)
+        {
+            counted = true;
+            for (int k = 0; k < mp::NKIND; ++k) rep.cls(std::string("c08:matepool_") + mp::KNAME[k], P.k[k].size());
+        }
+        int n = 4 + int(t.choose(6));
+        for (int i = 0; i < n; ++i)
+        {
+            int k = int(t.choose(mp::NKIND));
+            if (P.k[k].empty()) continue;
+            const mp::Entry& e = P.k[k][t.choose(uint32_t(P.k[k].size()))];
+            rep.cls(std::string("c08:special_mate_") + mp::KNAME[k]);
+            if (!c08_one(S, e.p, std::string("special_move_mate:") + mp::KNAME[k], 1 + int(t.choose(uint32_t(MAXD))), history, rep)) return false;
+        }
+        return true;
+    }
     if (t.chance(1, 4))
     {
         // a batch of cheap shallow searches of forcing back-rank positions: quiescence meets in-check nodes whose only
